@@ -13,7 +13,12 @@ META = {
             "independent oracles on the implementation's postings: non-negativity and exactness of single-send scripts (portions with fractional percents, "
             "denominators up to 10^4, totals at / next to 100 %, amounts up to 2^70), and the ordering clause (ordered-sources: in a single send over an "
             "ordered, possibly nested list of plain / capped / bounded-overdraft sources in one asset every leaf gives all it can before the next one gives "
-            "anything, computed in Python from the balances; the same account at two non-adjacent places included).",
+            "anything, computed in Python from the balances; the same account at two non-adjacent places included), and the portion clause "
+            "(portion-shares: in a single send whose destination — resp. source — is an allotment of plain entries and whose portions can be "
+            "evaluated from the input alone — literals n/d and x.y%, portion variables of the request, portions read from stored metadata, "
+            "remaining — every entry receives / gives floor(n*p) plus one of the leftover units for the earliest entries, computed with Python "
+            "integers and Fractions from the TEXT of the percentages (2.05% = 205/10000), compared with the postings per account; the generator "
+            "aims at amounts below 2^63 whose product with a reduced numerator > 1 is not, and at percentages with zeros right after the point).",
     "note": "Trusted: Lean kernel (+ Mathlib's linarith/nlinarith/ring1 for the portion arithmetic); Spec; harness pretty-printer. Theorems are about Spec; the lift "
             "to the bytecode VM rests on the differential (until C08's compile_correct). send_exact_allot needs positive portion denominators (the AST "
             "admits a zero denominator the parser never builds).",
@@ -22,12 +27,15 @@ META = {
 }
 
 
-def verdicts(inp, out, exact=None, ordst=None):
+def verdicts(inp, out, exact=None, ordst=None, shst=None):
     """the C03 oracles on one accepted outcome: [(signature, what)]"""
     v = []
     if "postings" not in out:
         return v
     exact = collections.Counter() if exact is None else exact
+    # portion clause, on the postings alone: every entry of an allotment gets / gives the floored fraction the text states
+    for side, what in portion_shares_verdicts(inp, out, shst):
+        v.append(({"property": "C03", "class": "portion-shares", "side": side}, what))
     for n, p in enumerate(out["postings"]):
         if int(p[2]) < 0:
             v.append(({"property": "C03", "class": "negative-posting"}, "posting %d is negative" % n))
@@ -79,13 +87,13 @@ def run(ctx):
     inputs, impl, model = r
     compare(ctx, "numscript:spec-vs-vm", inputs, impl, model, proj_impl=lambda i, o: strip(o))
     seen, nontrivial = set(), 0
-    exact, ordst = collections.Counter(), collections.Counter()
+    exact, ordst, shst = collections.Counter(), collections.Counter(), collections.Counter()
     rp = Replays(ctx, inputs)   # a replay is the case alone when that shows the violation, else (earlier case of the process, case)
     for inp in inputs:
         out = impl.get(inp["id"], {})
         if "postings" not in out:
             continue
-        for sig, what in verdicts(inp, out, exact, ordst):
+        for sig, what in verdicts(inp, out, exact, ordst, shst):
             rp.violation(sig, what, inp, out, lambda o, inp=inp, sig=sig: any(s == sig for s, _ in verdicts(inp, o)))
         f = features(inp)
         h = shash(inp["text"] + canon(inp["bal"]))
@@ -93,6 +101,7 @@ def run(ctx):
             nontrivial += 1
         seen.add(h)
     ctx.cov["ordered_sources_oracle"] = dict(ordst)
+    ctx.cov["portion_shares_oracle"] = dict(shst)
     ctx.cov["replay_isolation"] = dict(rp.stats)
     ctx.cov["exactness_oracle"] = dict(exact)
     ctx.cov["evaluations"] = len(inputs)
